@@ -18,6 +18,7 @@ import (
 	"github.com/cockroachdb/errors"
 	"github.com/milvus-io/milvus/pkg/util/retry"
 
+	"github.com/zilliztech/milvus-cdc/core/api"
 	"github.com/zilliztech/milvus-cdc/core/util"
 	"github.com/zilliztech/milvus-cdc/core/verifkit/ev"
 )
@@ -232,6 +233,81 @@ func c08Run(cs c08Case) (string, string) {
 	return "", got
 }
 
+// mixed partition lists: LoadPartitions / ReleasePartitions name several partitions, each with its own verdict; the one
+// downstream call must carry exactly the partitions whose incarnation existed at t
+type c08Mixed struct {
+	Kind   string    `json:"kind"`
+	P      [2]c08Obj `json:"partitions"`
+	Exists [2]bool   `json:"exists"`
+}
+
+func c08RunMixed(cs c08Mixed) (string, string) {
+	const db, coll = "db1", "c1"
+	parts := []string{"p1", "p2"}
+	fd := &fakeDown{}
+	w, _ := newVerifWriter(fd, "", nil)
+	c08Seed(w, 0, c08Obj{C: 10}, db, coll, "")
+	c08Seed(w, 1, c08Obj{C: 10}, db, coll, "")
+	for i, pn := range parts {
+		c08Seed(w, 2, cs.P[i], db, coll, pn)
+	}
+	fd.answer = func(kind string, p interface{}) error {
+		if kind == "DescribePartition" {
+			pp := p.(*api.DescribePartitionParam)
+			for i, pn := range parts {
+				if pp.PartitionName == pn && !cs.Exists[i] {
+					return c08ErrReject
+				}
+			}
+		}
+		return nil
+	}
+	v := opVals{DB: db, Coll: coll, Parts: parts, Colls: []string{coll}, TS: c08T}
+	_, err := w.HandleOpMessagePack(context.Background(), opPack(v.TS, buildOp(cs.Kind, v)))
+	var want []string
+	failed := false
+	for i, pn := range parts {
+		switch c08Ref(c08T, cs.P[i]) {
+		case c08Apply:
+			want = append(want, pn)
+		case c08Unknown:
+			if cs.Exists[i] {
+				want = append(want, pn)
+			} else {
+				failed = true
+			}
+		}
+		if failed {
+			break
+		}
+	}
+	var got [][]string
+	for _, c := range fd.calls {
+		switch p := c.Param.(type) {
+		case *api.LoadPartitionsParam:
+			got = append(got, p.PartitionNames)
+		case *api.ReleasePartitionsParam:
+			got = append(got, p.PartitionNames)
+		}
+	}
+	switch {
+	case failed:
+		if err == nil || len(got) != 0 {
+			return fmt.Sprintf("mixed: partitions %v probes %v: a partition is neither known nor present downstream, observed err=%v calls=%v, statement gives a failure without a call", cs.P, cs.Exists, err, got), ""
+		}
+		return "", "fail"
+	case len(want) == 0:
+		if err != nil || len(got) != 0 {
+			return fmt.Sprintf("mixed: partitions %v probes %v: every partition is to be skipped, observed err=%v calls=%v", cs.P, cs.Exists, err, got), ""
+		}
+		return "", "skip"
+	}
+	if err != nil || len(got) != 1 || fmt.Sprint(got[0]) != fmt.Sprint(want) {
+		return fmt.Sprintf("mixed: partitions %v probes %v: the call must name exactly %v, observed err=%v calls=%v", cs.P, cs.Exists, want, err, got), ""
+	}
+	return "", fmt.Sprintf("apply%d", len(want))
+}
+
 func c08ObjStates() []c08Obj {
 	vals := []uint64{0, 10, 15, 20, 25, 30}
 	var out []c08Obj
@@ -254,6 +330,20 @@ func TestVerifC08Table(t *testing.T) {
 		if err := jsonUnmarshal(b, &f); err != nil {
 			t.Fatal(err)
 		}
+		var fm struct {
+			Replay struct {
+				Mixed *c08Mixed `json:"mixed"`
+			} `json:"replay"`
+		}
+		if jsonUnmarshal(b, &fm) == nil && fm.Replay.Mixed != nil {
+			if msg, _ := c08RunMixed(*fm.Replay.Mixed); msg != "" {
+				fmt.Println("REPLAY-VIOLATION", msg)
+				res.Violate("replay", msg, fm.Replay)
+				return
+			}
+			fmt.Println("REPLAY-OK")
+			return
+		}
 		if msg, _ := c08Run(f.Replay); msg != "" {
 			fmt.Println("REPLAY-VIOLATION", msg)
 			res.Violate("replay", msg, f.Replay)
@@ -262,7 +352,7 @@ func TestVerifC08Table(t *testing.T) {
 		fmt.Println("REPLAY-OK")
 		return
 	}
-	res.Rule = "total decision table: for each operation kind with governing levels L in {1,2,3} (events create/drop collection: db; create/drop partition: db+collection; flush/index/load/release collection: db+collection; load/release partitions: db+collection+partition) every combination per level of recorded create time x drop time in {absent,10,15,20,25,30} with t=20 (all 13 weak orderings x 4 presence patterns) x downstream probe answers {exists, absent} per level x main-call answer {ok, rejected, rejected while a drop at t+3 is recorded at level l}; plus the restart family where the drop times reach the writer through NewChannelWriter's start-up snapshot; observed applied/skipped/failed compared with the reference cascade; non-trivial = cases whose outcome is skip, or a probe decided"
+	res.Rule = "total decision table: for each operation kind with governing levels L in {1,2,3} (events create/drop collection: db; create/drop partition: db+collection; flush/index/load/release collection: db+collection; load/release partitions: db+collection+partition) every combination per level of recorded create time x drop time in {absent,10,15,20,25,30} with t=20 (all 13 weak orderings x 4 presence patterns) x downstream probe answers {exists, absent} per level x main-call answer {ok, rejected, rejected while a drop at t+3 is recorded at level l}; plus the restart family where the drop times reach the writer through NewChannelWriter's start-up snapshot; plus LoadPartitions / ReleasePartitions naming two partitions with independent states (36 x 36 x probe answers): the one call names exactly the partitions whose incarnation existed at t; observed applied/skipped/failed compared with the reference cascade; non-trivial = cases whose outcome is skip, or a probe decided"
 	states := c08ObjStates()
 	type gk struct{ g, k string }
 	var kinds []gk
@@ -372,6 +462,32 @@ func TestVerifC08Table(t *testing.T) {
 				}
 			}
 			recC(0, c08Case{Group: k.g, Kind: k.k, Ctor: true})
+		}
+	}
+	for _, k := range []string{"LoadPartitions", "ReleasePartitions"} {
+		for _, a := range states {
+			for _, b := range states {
+				for pm := 0; pm < 4; pm++ {
+					idx++
+					if !ev.Mine(idx) {
+						continue
+					}
+					cs := c08Mixed{Kind: k, P: [2]c08Obj{a, b}, Exists: [2]bool{pm&1 != 0, pm&2 != 0}}
+					msg, got := c08RunMixed(cs)
+					res.Evaluations++
+					res.States++
+					res.Transitions++
+					res.Traces++
+					if msg != "" {
+						res.Violate("C08/mixed-list/"+k, fmt.Sprintf("case %+v: %s", cs, msg), map[string]interface{}{"mixed": cs})
+						continue
+					}
+					if got != "apply2" {
+						res.Nontrivial++
+					}
+					res.Outcome(k + ":mixed:" + got)
+				}
+			}
 		}
 	}
 	res.Bounds["cases"] = idx
